@@ -28,4 +28,7 @@ ub('C02.direct_start', 'C18/alloc.cc', 'h_direct', unwind=14, max_alloc=48, allo
    bound='48-byte backing buffer, symbolic length/position/version', covers='DirectBitDecoder::StartDecoding/DecodeNextBit')
 ub('C02.rans_bit_start', 'C18/alloc.cc', 'h_rans_bit', unwind=8, max_alloc=48, allow_alloc_cut=True, defines={'BACKING': 48},
    bound='48-byte backing buffer, symbolic length/position/version', covers='RAnsBitDecoder::StartDecoding/DecodeNextBit, ans_read_init, rabs_desc_read')
+ub('C02.kd_out_iter', 'C02/kdout.cc', 'h_kd_out_iter', unwind=6, max_alloc=48, defines={'NPTS': 2, 'NCOMP': 2},
+   bound='real PointAttribute with 2 values x 2 uint32 components (16 requested bytes inside a 48-byte chunk), iterator at ANY point index, any values',
+   covers='PointAttributeVectorOutputIterator<uint32_t>::operator=(const std::vector&) / operator++ (kd_tree_attributes_decoder.cc), PointAttribute::SetAttributeValue, DataBuffer::Write')
 META = {}
